@@ -83,7 +83,9 @@ Inductive ev :=
 | EvPatPmt                    (* OnPatPmt(blob) *)
 | EvSdp (v : vcodec)          (* OnSdp(ctx): an RTSP publisher / pull / the RTSP remuxer announces its SDP *)
 | EvPlay (id : N)             (* SETUP + PLAY of an RTSP subscriber that has its SDP: HandleNewRtspSubSessionPlay *)
-| EvRtp (raw : bytes).        (* OnRtpPacket(pkt), pkt = rtprtcp.ParseRtpPacket(raw) *)
+| EvRtp (raw : bytes)         (* OnRtpPacket(pkt), pkt = rtprtcp.ParseRtpPacket(raw) *)
+| EvDispose.                  (* Group.Dispose(): server shutdown / removal of the group.  The manager makes no further
+                                 calls on a disposed group; the model keeps stepping (with an empty subscriber set) *)
 (* EvJoin KRtsp id = DESCRIBE of a new RTSP session (HandleNewRtspSubSessionDescribe):
    it joins rtspSubSessionSet and is answered with the current SDP, if any. *)
 
@@ -383,6 +385,15 @@ Definition step (c : cfg) (s : gstate) (e : ev) : gstate :=
          g_next_rtp := g_next_rtp s; g_vcodec := v; g_hook := g_hook s; g_trec := g_trec s |}
   | EvPlay id => set_subs s (map (play_step (g_video_known s) id) (g_subs s)) (g_merge s) (g_merge_size s)
   | EvRtp raw => feed_rtp c s raw
+  | EvDispose =>
+      (* every sub session is disposed and forgotten, then delIn runs - without any check that an input exists *)
+      {| g_next := g_next s; g_next_ts := g_next_ts s; g_next_pat := g_next_pat s;
+         g_rtmp_cache := gc_clear (g_rtmp_cache s); g_flv_cache := gc_clear (g_flv_cache s);
+         g_ts_cache := gc_clear (g_ts_cache s);
+         g_patpmt := None; g_sdp := None; g_next_sdp := g_next_sdp s; g_merge := g_merge s; g_merge_size := g_merge_size s;
+         g_video_known := false; g_subs := []; g_gone := g_gone s ++ g_subs s;
+         g_rec_open := false; g_rec := g_rec s; g_in := false; g_next_rtp := g_next_rtp s; g_vcodec := VOther;
+         g_hook := if g_in s && cf_hook c then hook_stop (g_hook s) else g_hook s; g_trec := g_trec s |}
   end.
 
 Definition run (c : cfg) (h : list ev) : gstate := fold_left (step c) h (g_init c).
